@@ -245,6 +245,26 @@ def run_bank(case):
   lst = cas.freq_response(list(ws[:4]))
   if not isinstance(lst, list) or len(lst) != 4:
     return bad("freq_response:container", "cascade response over a list must be a list", "list", type(lst).__name__, nt)
+  # every container kind of frequencies, on the bank itself and on a bank nested in a bank:
+  # the result is the scalar result per element, as many as there are frequencies
+  sub = ws[3:10]
+  same = lambda a, b: a == b or (a != a and b != b)
+  for name, bank in (("cascade", cas), ("parallel", par),
+                     ("cascade-of-parallel", CascadeFilter([par, mk(specs[0])])),
+                     ("parallel-of-cascade", ParallelFilter([cas, mk(specs[-1])]))):
+    one = [bank.freq_response(w) for w in sub]
+    for kind, arg in (("list", list(sub)), ("tuple", tuple(sub)), ("stream", Stream(list(sub))),
+                      ("generator", (w for w in sub)), ("endless-stream", Stream(list(sub)).append(Stream(0.3).limit(50)))):
+      out = bank.freq_response(arg)
+      if kind in ("list", "tuple") and type(out) is not type(arg):
+        return bad("freq_response:container", "container kind must be preserved (%s)" % name, kind, type(out).__name__, nt)
+      if kind.endswith("stream") and not isinstance(out, Stream):
+        return bad("freq_response:container", "Stream in, Stream out (%s)" % name, "Stream", type(out).__name__, nt)
+      vals = out.take(len(sub) + 1) if kind == "endless-stream" else list(out)
+      want = one + ([bank.freq_response(0.3)] if kind == "endless-stream" else [])
+      if len(vals) != len(want) or any(not same(a, b) for a, b in zip(vals, want)):
+        return bad("freq_response:bank-elementwise", "%s.freq_response over a %s of frequencies must be the scalar "
+                   "result per element" % (name, kind), [str(v) for v in want[:4]], [str(v) for v in vals[:4]], nt)
   return R(None, nt, len(specs))
 
 
